@@ -67,7 +67,9 @@ def cases(tier, seed):
         for disp in range(3):
             for states in states_list:
                 merged = sum(1 for s in states if s >= 2)
-                modes = ["unique"] + (["shared"] if merged >= 2 else [])
+                # (chained: every block has ONE patch name on all its interface sides - the slave patch of one pair is
+                # the master patch of the next, e.g. coarse -> medium -> fine)
+                modes = ["unique"] + (["shared"] if merged >= 2 else []) + (["chained"] if merged >= 2 and name in ("tower3", "row3", "ell3") else [])
                 for mode in modes:
                     for call_order in ([0, 1] if merged >= 2 else [0]):
                         if tier == "quick" and disp == 2 and merged >= 2 and call_order == 1:
@@ -102,6 +104,8 @@ def declare(case):
             continue
         if case["names"] == "shared" and st >= 2:
             na, nb = ("M", "S") if st == 2 else ("S", "M")
+        elif case["names"] == "chained":
+            na, nb = f"blk{a}", f"blk{b}"
         else:
             na, nb = f"p{k}a", f"p{k}b"
         ops[a]["patches"][side_between(cells[a], cells[b])] = na
